@@ -11,6 +11,8 @@
 EXTENDS Integers, Sequences, FiniteSets, TLC, AsmLex
 
 CONSTANTS SepSet, WithFp
+Seps3 == {" ", ",", " , "}
+Seps5 == Seps          \* all five of AsmLex (with ", " and a tab)
 
 Programs == <<
   \* 1: plain instructions, loads and stores
